@@ -79,14 +79,18 @@ Definition line_model (kind : Z) (P : provider) (l : line) (ne te : Q) (comp : c
   else if Z.eqb kind 2 then recombination_radiance P l ne te comp
   else thermalcx_radiance P l ne te comp.
 
-Definition check_line (kind : Z) (g : stubcfg) (l : line) (ne te : Q) (comp : composition)
+(* fresh = the model instance has to populate its cache at this evaluation (first use, composition re-set, or the
+   previous populate failed).  On a later evaluation of the same instance no accessor is called again and the line
+   shape built earlier is re-used (its target is observed when it is handed a line); the outcome, the evaluate()
+   arguments and the sampled temperatures must be those of THIS point alone, whatever was evaluated before. *)
+Definition check_line (kind : Z) (fresh : bool) (g : stubcfg) (l : line) (ne te : Q) (comp : composition)
            (i_out : outcome) (i_calls : list (list Z)) (i_evals : list (list Q)) (i_target : list Z)
            (i_tsamp : list (list Z)) : bool :=
   let m := line_model kind (stub_provider g) l ne te comp in
   let mag := emitted (line_model kind (stub_provider (abs_cfg g)) l ne te (abs_comp comp)) in
   let '(calls, evals, target, tsamp) := line_expect kind l ne te comp m in
-  out_agree (line_tol * mag) m i_out && zll_eqb calls i_calls && qll_eqb evals i_evals && zlist_eqb target i_target
-  && zll_eqb tsamp i_tsamp.
+  out_agree (line_tol * mag) m i_out && zll_eqb (if fresh then calls else []) i_calls && qll_eqb evals i_evals
+  && zlist_eqb (if fresh || is_emit m then target else []) i_target && zll_eqb tsamp i_tsamp.
 
 (* ---- TotalRadiatedPower ------------------------------------------------------------------- *)
 Definition total_expect (g : stubcfg) (e c znum : Z) (ne te : Q) (comp : composition) (hyd : list Z) (out : outcome)
@@ -116,13 +120,13 @@ Definition out_agree_total (tol : Q) (m i : outcome) : bool :=
   | _, _ => out_agree tol m i
   end.
 
-Definition check_total (g : stubcfg) (hyd : list Z) (e c znum : Z) (ne te : Q) (comp : composition)
+Definition check_total (fresh : bool) (g : stubcfg) (hyd : list Z) (e c znum : Z) (ne te : Q) (comp : composition)
            (minw maxw : Q) (nbins : nat)
            (i_out : outcome) (i_bins : list Q) (i_calls : list (list Z)) (i_evals : list (list Q)) : bool :=
   let m := total_power_radiance (stub_provider g) hyd e c znum ne te comp minw maxw in
   let mag := emitted (total_power_radiance (stub_provider (abs_cfg g)) hyd e c znum ne te (abs_comp comp) minw maxw) in
   let '(calls, evals) := total_expect g e c znum ne te comp hyd m in
-  out_agree_total (line_tol * mag) m i_out && zll_eqb calls i_calls && qll_eqb evals i_evals &&
+  out_agree_total (line_tol * mag) m i_out && zll_eqb (if fresh then calls else []) i_calls && qll_eqb evals i_evals &&
   (* every bin holds the same double *)
   (if is_emit m then Nat.eqb (length i_bins) nbins && forallb (fun b => Qeq_bool b (emitted i_out)) i_bins
    else forallb (fun b => Qeq_bool b 0) i_bins).
